@@ -275,6 +275,19 @@ def lexical_obligations(run, lexmod):
         why = 'identifier characters of the lexer that are ES5 white space / line terminators: {%s}' % cc.show(x)
         run.failed('lex.identifier_disjoint_separators', 'E3/charclass', 'a%sb' % chr(x[0][0]), dict(chars=cc.show(x)), observed=why,
                    required='WhiteSpace and LineTerminator separate tokens (7.2, 7.3); no Unicode version makes them IdentifierPart', replayed=True)
+    # no character is an identifier character for the lexer that is not one for Unicode 15, except the three whose category changed
+    # since the lexer's table was generated (U+1885, U+1886: letters until Unicode 8; U+19DA: a digit until Unicode 5.1).  Letters the
+    # table lacks are allowed: ES5 accepts any Unicode version >= 3.0.
+    recategorised = [(0x1885, 0x1886), (0x19da, 0x19da)]
+    extra_all = cc.minus(cc.minus(cc.union(start, part), sets['IdentifierPart']), recategorised)
+    extra_start = cc.minus(cc.minus(start, sets['IdentifierStart']), recategorised)
+    if not extra_all and not extra_start:
+        run.discharged('lex.identifier_within_unicode', 'E3/charclass', 'intervals', 0.0)
+    else:
+        bad_ = extra_start or extra_all
+        why = 'the lexer takes %s as identifier %s; Unicode %s does not class them so' % (cc.show(bad_), 'start characters' if extra_start else 'characters', sets['unicode_version'])
+        run.failed('lex.identifier_within_unicode', 'E3/charclass', 'U+%04X' % bad_[0][0], dict(chars=cc.show(bad_)), observed=why,
+                   required='IdentifierStart / IdentifierPart of 7.6 (categories Lu Ll Lt Lm Lo Nl, $ _, and Mn Mc Nd Pc ZWNJ ZWJ)', replayed=True)
     extra = cc.minus(start, sets['IdentifierStart'])
     run.notes.append('identifier start characters of the lexer outside Unicode %s letters: {%s} (re-categorised since the table was built; '
                      'not an obligation: ES5 allows any Unicode version >= 3.0)' % (sets['unicode_version'], cc.show(extra, 4)))
